@@ -145,6 +145,19 @@ def run_property(prop, tier, obligations, meta, seed=0):
                     r2["retried"] = True
                     results[i] = (ob, r2)
 
+        # native replays of all counterexample candidates, in parallel
+        todo = []
+        for ob, r in results:
+            if ob.get("expect", "holds") == "holds" and r["status"] == "CANDIDATE":
+                for cex in r["cex"]:
+                    if not (ob.get("engine") == "native" or cex.get("native")):
+                        todo.append((ob, cex))
+        if todo:
+            with ThreadPoolExecutor(max_workers=JOBS) as ex:
+                futs = [(cex, ex.submit(replay_native, ob, cex, scratch)) for ob, cex in todo]
+                for cex, fu in futs:
+                    cex["replay"] = fu.result()
+
         violations, known, inconclusive = [], [], []
         twins_refuted = 0
         for ob, r in results:
@@ -170,7 +183,7 @@ def run_property(prop, tier, obligations, meta, seed=0):
                 if ob.get("engine") == "native" or cex.get("native"):
                     rr = {"violated": True, "detail": cex.get("detail", ""), "tag": cex.get("tag", "")}
                 else:
-                    rr = replay_native(ob, cex, scratch)
+                    rr = cex.get("replay") or replay_native(ob, cex, scratch)
                 cex["replay"] = rr
                 if not rr.get("violated"):
                     continue
